@@ -99,8 +99,32 @@ class Path:
         self.env = None
 
 
+F64 = z3.Function('f64', z3.RealSort(), z3.RealSort())   # nearest double of a real (uninterpreted)
+
+
+def smart_toint(t):
+    """floor of a real term, with to_int(to_real(k) + c) folded for constant c (keeps VCs linear)."""
+    t = z3.simplify(t)
+    if z3.is_app_of(t, z3.Z3_OP_TO_REAL):
+        return t.arg(0)
+    if z3.is_rational_value(t):
+        import math
+        from fractions import Fraction
+        return z3.IntVal(math.floor(Fraction(t.numerator_as_long(), t.denominator_as_long())))
+    if z3.is_add(t) and t.num_args() == 2:
+        a, b = t.arg(0), t.arg(1)
+        if z3.is_rational_value(b):
+            a, b = b, a
+        if z3.is_rational_value(a) and z3.is_app_of(b, z3.Z3_OP_TO_REAL):
+            import math
+            from fractions import Fraction
+            c = Fraction(a.numerator_as_long(), a.denominator_as_long())
+            return b.arg(0) + math.floor(c)
+    return z3.ToInt(t)
+
+
 def trunc_real(t):
-    return z3.If(t >= 0, z3.ToInt(t), -z3.ToInt(-t))
+    return z3.If(t >= 0, smart_toint(t), -smart_toint(-t))
 
 
 def floordiv_int(a, b):
@@ -282,6 +306,9 @@ class Executor:
             h = self.attr_hooks.get(('bool', v.pycls.__name__)) or self.attr_hooks.get(('bool', v.name))
             if h:
                 return h(self, v)
+            h = self.hooks.get(('len', v.pycls.__name__)) or self.hooks.get(('len', v.name))
+            if h:
+                return h(self, v).t != 0
             if not hasattr(v.pycls, '__bool__') and not hasattr(v.pycls, '__len__'):
                 return z3.BoolVal(True)
         if isinstance(v, (VExc, VFunc, VBound)):
@@ -404,8 +431,20 @@ class Executor:
         if isinstance(v, (VInt, VBool)):
             if self.branch(z3.Or(r >= z3.RealVal(2 ** 1024), r <= -z3.RealVal(2 ** 1024))):
                 self.raise_py(OverflowError)
-        self.note('A-FP: int/Decimal -> float conversion treated as exact')
-        return VFloat(False, 0, r)
+        # exact when the value is an integer of magnitude <= 2**53; otherwise the nearest
+        # double, an uninterpreted function f64 of the exact value (A-FP)
+        small = z3.And(z3.ToReal(z3.ToInt(r)) == r, r <= 2 ** 53, r >= -(2 ** 53))
+        rs = z3.simplify(r)
+        if any(rs.eq(d) for d in self.known_doubles):
+            val = r      # the value of a double converts to itself
+        else:
+            val = r if self.branch(small) else F64(r)     # fork: keeps the terms simple
+        if isinstance(v, VDec):
+            big = z3.RealVal(2 ** 1024)
+            if self.branch(z3.Or(r >= big, r <= -big)):      # Decimal.__float__ overflows to +-inf
+                return VFloat(False, z3.If(r > 0, 1, -1), 0, r < 0)
+            return VFloat(False, 0, val, v.neg)
+        return VFloat(False, 0, val, r < 0)
 
     def arith(self, op: str, a: Val, b: Val) -> Val:
         ca, cb = a.conc, b.conc
@@ -578,7 +617,7 @@ class Executor:
         if isinstance(v, (VInt, VBool)):
             return VInt(-as_int_term(v))
         if isinstance(v, VDec):
-            return VDec(-v.t)
+            return VDec(-v.t, z3.Not(v.neg))
         if isinstance(v, VFloat):
             return VFloat(v.nan, -v.inf, -v.val, z3.If(v.nan, v.neg, z3.Not(v.neg)), v.pycls if v.pycls is float else float)
         if isinstance(v, (VStr, VNone, VTuple, VPyList)):
@@ -604,7 +643,7 @@ class Executor:
             t = as_int_term(v)
             return VInt(z3.If(t >= 0, t, -t))
         if isinstance(v, VDec):
-            return VDec(z3.If(v.t >= 0, v.t, -v.t))
+            return VDec(z3.If(v.t >= 0, v.t, -v.t), False)
         if isinstance(v, VFloat):
             return VFloat(v.nan, z3.If(v.inf < 0, -v.inf, v.inf), z3.If(v.val >= 0, v.val, -v.val), False)
         raise OutOfSubset(f'abs of {v!r}')
@@ -1161,6 +1200,14 @@ class Executor:
             obj = self.eval(t.value, env)
             if not isinstance(obj, VObj):
                 raise OutOfSubset(f'attribute store on {obj!r}')
+            if obj.pycls is DecimalLocalContext:
+                if t.attr == 'prec':
+                    self.prec_wide = True
+                    self.note('A-LOCALPREC: inside `with decimal.localcontext()` after `ctx.prec = ...` the '
+                              'precision chosen by the code is assumed sufficient (quantize does not overflow); '
+                              'sampled by the encoder validation on values >= 1e28')
+                obj.fields[t.attr] = v
+                return
             self.store_effect('setattr', obj, t, t.attr, v)
             obj.fields[t.attr] = v
         elif isinstance(t, ast.Subscript):
@@ -1323,10 +1370,26 @@ class Executor:
             run_finally()
 
     def s_With(self, node, env):
+        if len(node.items) == 1:
+            mgr = self.eval(node.items[0].context_expr, env)
+            if isinstance(mgr, VObj) and mgr.pycls is DecimalLocalContext:
+                # decimal.localcontext(): a private copy of the context; on exit the previous
+                # context is restored (T-DEP: decimal docs).
+                saved = self.prec_wide
+                if node.items[0].optional_vars is not None:
+                    self.assign_target(node.items[0].optional_vars, mgr, env)
+                try:
+                    self.exec_block(node.body, env)
+                finally:
+                    self.prec_wide = saved
+                return
         h = self.hooks.get('with')
         if h is None:
             raise OutOfSubset('with statement without a manager contract')
         return h(self, node, env)
+
+    prec_wide = False
+    known_doubles: list = []
 
     # loops
     def loop_ordinal(self, node) -> int:
@@ -1544,6 +1607,10 @@ class Executor:
                 return False
             return all(self.match_pattern(p, s, env) for p, s in zip(pat.patterns, subject.items))
         raise OutOfSubset(f'pattern {type(pat).__name__}')
+
+
+class DecimalLocalContext:
+    """Marker class of the object returned by decimal.localcontext()."""
 
 
 class VRange(Val):
